@@ -72,20 +72,24 @@ def prevOf (root : Tree) (n : Tree) : Option Tree :=
 /-- where `goto_first_child_for_byte(b)` lands: the first child that ends after `b` -/
 def firstChildForByte (b : Nat) (cs : List Tree) : Option Nat := cs.findIdx? (fun c => c.stop > b)
 
-/-- `next_all()`: a cursor on the parent (on the node itself when it is the root) is positioned
+/-- `next_all()`: a cursor on the parent is positioned
 by byte offset on the first child ending after `n.start`, then walks right -/
 def nextAllOf (root : Tree) (n : Tree) : List Tree :=
-  let host := (parentOf root n).getD n
-  match firstChildForByte n.start host.children with
-  | some k => host.children.drop (k + 1)
-  | none => []
+  match parentOf root n with
+  | none => []                                   -- a node without parent has no siblings
+  | some host =>
+    match firstChildForByte n.start host.children with
+    | some k => host.children.drop (k + 1)
+    | none => []
 
 /-- `prev_all()`: same positioning, then walks left (nearest first) -/
 def prevAllOf (root : Tree) (n : Tree) : List Tree :=
-  let host := (parentOf root n).getD n
-  match firstChildForByte n.start host.children with
-  | some k => (host.children.take k).reverse
+  match parentOf root n with
   | none => []
+  | some host =>
+    match firstChildForByte n.start host.children with
+    | some k => (host.children.take k).reverse
+    | none => []
 
 /-- `child_by_field_id(f)`: the first child hanging under field `f` -/
 def childByField (n : Tree) (f : Nat) : Option Tree := n.children.find? (·.info.field == some f)
@@ -210,11 +214,12 @@ def matchRule : (fuel : Nat) → Rule → Tree → Env → Except Abn (Option Tr
         | .ok (some env') => .ok (some n, env')
         | .ok none => .ok (none, env)
     | .not r =>
-      -- `self.not.match_node_with_env(node.clone(), env).xor(Some(node))`: same env handed down
+      -- `self.not.match_node_with_env(node.clone(), &mut scratch).xor(Some(node))`: the negated
+      -- matcher runs on a scratch copy, the caller's env is never touched
       match matchRule fuel r n env with
       | .error e => .error e
-      | .ok (some _, env') => .ok (none, env')
-      | .ok (none, env') => .ok (some n, env')
+      | .ok (some _, _) => .ok (none, env)
+      | .ok (none, _) => .ok (some n, env)
     | .matches id =>
       match alookup id ctx.locals with
       | some r => matchRule fuel r n env
@@ -340,7 +345,7 @@ def matchHas : (fuel : Nat) → Rule → StopBy → Option Nat → Tree → Env 
         | .neighbor => matchRule fuel r nd env
         | .end_ => findMapRule fuel r none 0 nd.preorder env
         | .rule s =>
-          -- the field child, then (unless it stops) its children only
+          -- the field child, then (unless it stops) everything below it up to the stop rule
           match matchRule fuel r nd env with
           | .error e => .error e
           | .ok (some m, env') => .ok (some m, env')
@@ -348,7 +353,7 @@ def matchHas : (fuel : Nat) → Rule → StopBy → Option Nat → Tree → Env 
             match matchRule fuel s nd Env.empty with
             | .error e => .error e
             | .ok (some _, _) => .ok (none, env')
-            | .ok (none, _) => findMapRule fuel r none 0 nd.children env'
+            | .ok (none, _) => hasUntil fuel r s nd.children env'
     | none =>
       match stop with
       | .neighbor => findMapRule fuel r none 0 n.children env
